@@ -10,10 +10,12 @@
 
   The model talks to a transport `x : σ → Req → σ × Rsp` on decoded messages; the truncation the
   message codec applies to request fields (16-bit ids, 8-bit offset and count) is modelled where
-  the request is built.  Two places where the pinned source (commit 816fdee) differed from what the
-  property needs are a `Variant`: the model runs either way; the translator reads the variant from
-  the working tree on every run (`Gen.Loops11.variantRead`) and the check also probes the real code.
-  The tree as repaired by 01f2987 / 91e28cb is `Variant.intended`.
+  the request is built.  The places where the source differs (differed) from what the properties
+  need are a `Variant`: the model runs either way; the translator reads the variant from the working
+  tree on every run (`Gen.Loops11.variantRead`) and the checks also probe the real code.
+  Pinned commit 816fdee: `Variant.asShipped`; after 01f2987 / 91e28cb (C11): `⟨false, .repo, .dev, true⟩`
+  - the reservation id a chunk read obtained after a cancellation is still dropped (`staleRes`, C13);
+  with that repaired as well: `Variant.intended`.
   Core Lean only.
 -/
 import PyIpmi.Model.Retry
@@ -40,10 +42,17 @@ structure Variant where
   repoRenew : Store
   /-- same for `Sensor._get_device_sdr_chunk` -/
   devRenew : Store
+  /-- the reservation id get_sdr_chunk_helper obtains after "reservation cancelled" stays in the
+  request object of that one chunk: get_sdr_data_helper hands the id it started with to every
+  following chunk and the entries generators to every following record (as shipped).  Intended:
+  the chunk reader hands back the id its request ended up with - as third element of its result,
+  or on the CompletionCodeError it raises -, get_sdr_data_helper goes on with it and returns it to
+  the generator for the next record. -/
+  staleRes : Bool
   deriving Repr, DecidableEq, Inhabited
 
-def Variant.asShipped : Variant := ⟨true, .dev, .dev⟩
-def Variant.intended : Variant := ⟨false, .repo, .dev⟩
+def Variant.asShipped : Variant := ⟨true, .dev, .dev, true⟩
+def Variant.intended : Variant := ⟨false, .repo, .dev, false⟩
 
 def Variant.renew (v : Variant) : Store → Store
   | .repo => v.repoRenew
@@ -95,20 +104,32 @@ def sendGet (s : Store) (id off cnt : Nat) (st : σ) (res : Nat) : σ × Outcome
 def getChunk (s : Store) (st : σ) (res id off cnt : Nat) : σ × Outcome (Nat × List Nat) :=
   chunkLoop K (sendGet K x s id off cnt) (reserve K x (v.renew s)) K.chunkRetryDefault st res
 
+/-- `get_fn(reservation_id, record_id, offset, length)` as get_sdr_data_helper experiences it: what
+the chunk reader returns or raises, and the reservation id the helper holds afterwards - its own
+(as shipped), or the one the reader's request ended up with (third element of the result /
+`reservation_id` attribute of a CompletionCodeError). -/
+def getFn (s : Store) (id : Nat) (st : σ) (res off cnt : Nat) : (σ × Outcome (Nat × List Nat)) × Nat :=
+  (getChunk K v x s st res id off cnt,
+   if v.staleRes then res
+   else chunkRes K (sendGet K x s id off cnt) (reserve K x (v.renew s)) K.chunkRetryDefault st res)
+
 /-- `pop_unsigned_int(2)` on the header. -/
 def hdrId (d : List Nat) : Nat := d.getD 0 0 + 256 * d.getD 1 0
 
 /-- The chunk loop of get_sdr_data_helper.  `retry` is Python's counter before the decrement,
-`m` is `max_req_len`, `acc` is `record_data`, `next`/`last` are the values `next_id` / `data` still
-hold from the previous successful read.
+`m` is `max_req_len`, `res` is `reservation_id`, `acc` is `record_data`, `next`/`last` are the
+values `next_id` / `data` still hold from the previous successful read.  `get st res off len` is
+`get_fn(reservation_id, record_id, offset, length)` with the value `reservation_id` has afterwards
+(`getFn`); the result carries the final `reservation_id` (what `with_reservation=True` returns).
 
 ```
 retry -= 1
 if retry == 0: raise RetryError()
 length = max_req_len
 if (offset + length) > record_length: length = record_length - offset
-try: (next_id, data) = get_fn(reservation_id, record_id, offset, length)
+try: (next_id, data[, reservation_id]) = get_fn(reservation_id, record_id, offset, length)
 except CompletionCodeError as e:
+    [reservation_id = getattr(e, 'reservation_id', reservation_id)]     # intended only
     if e.cc == CC_CANT_RET_NUM_REQ_BYTES:
         max_req_len -= 4
         if max_req_len <= 0: raise RetryError() # as shipped (816fdee): retry = 0
@@ -120,44 +141,45 @@ if len(record_data) >= record_length: break
 As shipped, `retry = 0` was followed by `retry -= 1` and never raised; that corner (request size
 shrunk to ≤ 0) needs five refusals in a row, which a device with a fixed limit that served the
 5-byte header cannot produce; it is outside the as-shipped model (`unmodelled`). -/
-def dataLoop (get : σ → Nat → Nat → σ × Outcome (Nat × List Nat)) (recLen : Nat) :
-    Nat → Nat → σ → List Nat → Nat → List Nat → σ × Outcome (Nat × List Nat)
-  | 0, _, st, _, _, _ => (st, .pyError "unmodelled:retry<1")
-  | r + 1, m, st, acc, next, last =>
+def dataLoop (get : σ → Nat → Nat → Nat → (σ × Outcome (Nat × List Nat)) × Nat) (recLen : Nat) :
+    Nat → Nat → σ → Nat → List Nat → Nat → List Nat → σ × Outcome ((Nat × List Nat) × Nat)
+  | 0, _, st, _, _, _, _ => (st, .pyError "unmodelled:retry<1")
+  | r + 1, m, st, res, acc, next, last =>
     if r = 0 then (st, .retryError) else
     let off := acc.length
     let len := if off + m > recLen then recLen - off else m
-    match get st off len with
-    | (st1, .ok (nx, d)) =>
+    match get st res off len with
+    | ((st1, .ok (nx, d)), res1) =>
       let acc' := acc ++ d
-      if acc'.length ≥ recLen then (st1, .ok (nx, acc'))
-      else dataLoop get recLen r m st1 acc' nx d
-    | (st1, .ccError c) =>
+      if acc'.length ≥ recLen then (st1, .ok ((nx, acc'), res1))
+      else dataLoop get recLen r m st1 res1 acc' nx d
+    | ((st1, .ccError c), res1) =>
       if c = XK.cantReturn then
         if m ≤ XK.reqLenDec then
           (st1, if v.fallThrough then .pyError "unmodelled:max_req_len<=0" else .retryError)
         else if v.fallThrough then
           let acc' := acc ++ last
-          if acc'.length ≥ recLen then (st1, .ok (next, acc'))
-          else dataLoop get recLen r (m - XK.reqLenDec) st1 acc' next last
-        else dataLoop get recLen r (m - XK.reqLenDec) st1 acc next last
+          if acc'.length ≥ recLen then (st1, .ok ((next, acc'), res1))
+          else dataLoop get recLen r (m - XK.reqLenDec) st1 res1 acc' next last
+        else dataLoop get recLen r (m - XK.reqLenDec) st1 res1 acc next last
       else (st1, .ccError c)
-    | (st1, e) => (st1, recast e)
+    | ((st1, e), _) => (st1, recast e)
 
 /-- get_sdr_data_helper after `reservation_id` is settled: the 5-byte header read, then the chunk
-loop for the length the header announces, addressed by the id found in the header. -/
-def getSdrDataWith (s : Store) (st : σ) (id res : Nat) : σ × Outcome (Nat × List Nat) :=
-  match getChunk K v x s st res id 0 XK.hdrLen with
-  | (st1, .ok (nx, d)) =>
+loop for the length the header announces, addressed by the id found in the header; the result
+carries the `reservation_id` the helper ended with (the header read is outside any `try`: an
+exception there leaves the helper). -/
+def getSdrDataWith (s : Store) (st : σ) (id res : Nat) : σ × Outcome ((Nat × List Nat) × Nat) :=
+  match getFn K v x s id st res 0 XK.hdrLen with
+  | ((st1, .ok (nx, d)), res1) =>
     if d.length < 5 then (st1, .decodingError)   -- the five header pops run out of data
     else
-      dataLoop XK v (fun st off len => getChunk K v x s st res (hdrId d) off len)
-        (d.getD 4 0 + 5) XK.dataRetry XK.maxReqLen st1 d nx d
-  | (st1, e) => (st1, recast e)
+      dataLoop XK v (getFn K v x s (hdrId d)) (d.getD 4 0 + 5) XK.dataRetry XK.maxReqLen st1 res1 d nx d
+  | ((st1, e), _) => (st1, recast e)
 
-/-- get_sdr_data_helper(reserve_fn, get_fn, record_id, reservation_id) for store `s`:
-`if reservation_id is None: reservation_id = reserve_fn()`, then the read. -/
-def getSdrData (s : Store) (st : σ) (id : Nat) (res? : Option Nat) : σ × Outcome (Nat × List Nat) :=
+/-- get_sdr_data_helper(reserve_fn, get_fn, record_id, reservation_id, with_reservation=True) for
+store `s`: `if reservation_id is None: reservation_id = reserve_fn()`, then the read. -/
+def getSdrDataR (s : Store) (st : σ) (id : Nat) (res? : Option Nat) : σ × Outcome ((Nat × List Nat) × Nat) :=
   match res? with
   | some r => getSdrDataWith K XK v x s st id r
   | none =>
@@ -165,19 +187,31 @@ def getSdrData (s : Store) (st : σ) (id : Nat) (res? : Option Nat) : σ × Outc
     | (st0, .ok res) => getSdrDataWith K XK v x s st0 id res
     | (st0, e) => (st0, recast e)
 
+/-- forget the reservation id of a result -/
+def dropRes {α : Type} : Outcome (α × Nat) → Outcome α
+  | .ok p => .ok p.1
+  | e => recast e
+
+/-- get_repository_sdr / get_device_sdr (up to the parse of the record): `(next_id, record_data)`. -/
+def getSdrData (s : Store) (st : σ) (id : Nat) (res? : Option Nat) : σ × Outcome (Nat × List Nat) :=
+  ((getSdrDataR K XK v x s st id res?).1, dropRes (getSdrDataR K XK v x s st id res?).2)
+
 /-- The body of sdr_repository_entries / device_sdr_entries: read record `id`, keep its bytes,
 follow `next_id` until 0xffff.  Python has no bound here; `fuel` counts records (`Hang` when it
 runs out — a theorem shows it does not for a well-formed store).
 `SdrCommon.__init__` sets `.next_id` only `if next_id:` — a successor id of 0 makes the
-generator's `s.next_id` raise AttributeError. -/
+generator's `s.next_id` raise AttributeError.
+As shipped the generator keeps the reservation it took at the start for every record; intended:
+`(s, reservation_id) = self._get_repository_sdr(record_id, reservation_id)` - it goes on with the
+id the read of the previous record ended with. -/
 def entries (s : Store) : Nat → σ → Nat → Nat → List (List Nat) → σ × Outcome (List (List Nat))
   | 0, st, _, _, _ => (st, .pyError "Hang")
   | f + 1, st, res, id, acc =>
-    match getSdrData K XK v x s st id (some res) with
-    | (st1, .ok (nx, d)) =>
+    match getSdrDataR K XK v x s st id (some res) with
+    | (st1, .ok ((nx, d), res1)) =>
       if nx = 0 then (st1, .pyError "AttributeError")
       else if nx = XK.lastId then (st1, .ok (acc ++ [d]))
-      else entries s f st1 res nx (acc ++ [d])
+      else entries s f st1 (if v.staleRes then res else res1) nx (acc ++ [d])
     | (st1, e) => (st1, recast e)
 
 /-- get_repository_sdr_list / get_device_sdr_list: one reservation up front, then `entries` from 0. -/
@@ -191,5 +225,30 @@ end
 /-- The same transport, also recording every exchange (request, response), oldest first. -/
 def traced {σ : Type} (x : Xport σ) : Xport (σ × List (Req × Rsp)) :=
   fun st r => (((x st.1 r).1, st.2 ++ [(r, (x st.1 r).2)]), (x st.1 r).2)
+
+/-! ### scripted transport (C13): the device's behaviour is an outcome sequence -/
+
+/-- A device whose answers to Get (Device) SDR follow an outcome script (`Retry.Script`: a finite
+prefix of letters, then one letter for ever): a letter with completion code 0 serves the requested
+bytes of its records, any other letter is answered with its code.  Reserve always succeeds and
+grants consecutive ids (so a stale id is visible in the trace); both stores share script, records
+and counter. -/
+structure ScriptDev where
+  script : Script
+  lastRes : Nat
+  recs : List (List Nat)
+  deriving Repr, Inhabited
+
+def scriptX : Xport ScriptDev := fun d r =>
+  match r with
+  | .reserve _ => ({ d with lastRes := d.lastRes + 1 }, .reserved (d.lastRes + 1))
+  | .get _ _ id off cnt =>
+    let d' := { d with script := d.script.next.2 }
+    if d.script.next.1.code = 0 then
+      match PyIpmi.Spec.Sdr.lookup d.recs id with
+      | some (rec, nx) => (d', .data nx ((rec.drop off).take cnt))
+      | none => (d', .err PyIpmi.Spec.Sdr.ccNotPresent)
+    else (d', .err d.script.next.1.code)
+  | _ => (d, .err PyIpmi.Spec.Sdr.ccInvalidCmd)
 
 end PyIpmi.Model.SdrXfer
